@@ -31,6 +31,21 @@ Fixpoint flush (pw : bytes) (ws : list wev) {struct ws} : fres * bytes * list we
     end
   end.
 
+(* Framed::write polled to completion over the same script: not-ready turns are waited out; the whole of
+   [pw] is written (so the bytes written are [pw] itself); None = the transport failed.  Returns the rest
+   of the script. *)
+Fixpoint drain (pw : bytes) (ws : list wev) {struct ws} : option (list wev) :=
+  match pw with
+  | [] => Some ws
+  | _ =>
+    match ws with
+    | [] => Some []
+    | WAccept k :: ws' => drain (skipn (Nat.min (S k) (length pw)) pw) ws'
+    | WPending :: ws' => drain pw ws'
+    | WFail _ :: _ => None
+    end
+  end.
+
 Inductive pc := Top | InRead.      (* suspended inside flush_pending_reply resumes exactly like Top: the loop has no local state *)
 
 Section Async.
@@ -133,6 +148,64 @@ Section Async.
 
   Definition init_state : fstate := mkF [] [] None.
 
+  (* ---- conversations: between two read() calls the caller also calls write().
+          Framed::write = encode, finish an outstanding keep-alive reply (flush_pending_reply), then
+          write_all_buf of the frame.  The caller's packets are given by their frames.
+          Tokens: TW = reply bytes written by read() since the last token, TR = a result,
+          TU pre fr = one write(): the rest [pre] of an outstanding reply, then the frame [fr]. ---- *)
+  Inductive ctok := TW (b : bytes) | TR (r : rres packet) | TU (pre fr : bytes).
+  Definition tw (b : bytes) : list ctok := match b with [] => [] | _ => [TW b] end.
+
+  Fixpoint user_writes (frs : list bytes) (s : fstate) (ws : list wev) : option (list ctok * fstate * list wev) :=
+    match frs with
+    | [] => Some ([], s, ws)
+    | fr :: t =>
+      match drain (pend_w s) ws with
+      | None => None
+      | Some ws1 =>
+        match drain fr ws1 with
+        | None => None
+        | Some ws2 =>
+          match user_writes t (mkF (fbuf s) [] (pend_p s)) ws2 with
+          | Some (toks, s', ws') => Some (TU (pend_w s) fr :: toks, s', ws')
+          | None => None
+          end
+        end
+      end
+    end.
+
+  (* wsched: the frames the caller writes before each new read() (one entry is consumed whenever a read()
+     starts: after a result and after a dropped future) *)
+  Fixpoint aconv (fuel : nat) (c : pc) (s : fstate) (rs : list arev) (ws : list wev)
+           (cancels : list bool) (wsched : list (list bytes)) (acc : bytes) : list ctok :=
+    match fuel with
+    | O => []
+    | S f =>
+      let '(o, s', rs', ws', w) := poll_from c s rs ws in
+      match o with
+      | PPending c' =>
+          match cancels with
+          | true :: cs =>
+              match wsched with
+              | (f1 :: ft) :: wt =>
+                  match user_writes (f1 :: ft) s' ws' with
+                  | Some (toks, s'', ws'') => tw (acc ++ w) ++ toks ++ aconv f Top s'' rs' ws'' cs wt []
+                  | None => tw (acc ++ w)
+                  end
+              | _ => aconv f Top s' rs' ws' cs (tl wsched) (acc ++ w)
+              end
+          | _ => aconv f c' s' rs' ws' (tl cancels) wsched (acc ++ w)
+          end
+      | PReady r =>
+          tw (acc ++ w) ++ TR r ::
+          (if is_final packet (Ret r) then [] else
+             match user_writes (hd [] wsched) s' ws' with
+             | Some (toks, s'', ws'') => toks ++ aconv f Top s'' rs' ws'' cancels (tl wsched) []
+             | None => []
+             end)
+      end
+    end.
+
   (* ---- the design before the repair (the reply and its packet lived in the future): kept only to
           document why the state must be in the connection ---- *)
   Inductive lpc := LTop | LInRead | LInPong (p : packet) (remaining : bytes).
@@ -152,4 +225,5 @@ Section Async.
 End Async.
 
 Arguments PPending {packet}. Arguments PReady {packet}.
+Arguments TW {packet}. Arguments TR {packet}. Arguments TU {packet}.
 Arguments mkF {packet}. Arguments fbuf {packet}. Arguments pend_w {packet}. Arguments pend_p {packet}.
